@@ -174,6 +174,15 @@ def string_cases():
             e = 'string.to_int("%s"%s)' % (s, "" if base is None else ", %d" % base)
             out.append(("string:to_int:%s" % ("default" if base is None else "base%d" % base), ("not defined " + e) if v is None else
                         ("%s == %d" % (e, v) if v != -(1 << 63) else "%s == -9223372036854775807 - 1" % e)))
+    # bases outside 0, 2..36 are undefined - also those whose low 32 (or 8, 16) bits look like a legal base
+    for base in (1, 37, -1, -10, 256 + 10, 65536 + 16, (1 << 31), (1 << 32), (1 << 32) + 10, (1 << 32) + 16, -(1 << 32) + 8, (1 << 33) + 2, (1 << 32) + 36, I63, -I63):
+        for s in ("10", "ff", "0", "-7"):
+            out.append(("string:to_int:invalid-base", 'not defined string.to_int("%s", %d)' % (s, base)))
+    for base in (2, 3, 35, 36):
+        top = "0123456789abcdefghijklmnopqrstuvwxyz"[base - 1]
+        out.append(("string:to_int:base%d" % base, 'string.to_int("1%s", %d) == %d' % (top, base, base + base - 1)))
+        if base < 36:
+            out.append(("string:to_int:base%d" % base, 'not defined string.to_int("1%s", %d)' % ("0123456789abcdefghijklmnopqrstuvwxyz"[base], base)))
     return out
 
 
